@@ -393,7 +393,8 @@ class Schema(dict, metaclass=LogicalMeta):
                 )
             super().__delitem__(field.name)
 
-        if field.name in self.__dict__:
+        if field.attname in self.__dict__:
+            # the instance __dict__ is keyed by attname (field.name is the alias)
             self.__dict__.pop(field.attname)
 
     def __delitem__(self, key: str):
@@ -432,6 +433,8 @@ class Schema(dict, metaclass=LogicalMeta):
                 f"{self.__name__}: Attempt to delete required schema key: {repr(key)}"
             )
         args = () if unprovided(default) else (default,)
+        # the attribute goes with the key
+        self.__dict__.pop(field.attname, None)
         return super().pop(field.name, *args)
 
     def update(self, __m=None, **kwargs):
